@@ -24,7 +24,7 @@ QUANTIFIED OVER: {p['quantifier']['text']}
 
 Your task: make ONE realistic source change (a plausible bug a developer could introduce: a refactoring slip, a wrong boundary, a dropped case, a missing copy/lock/sort, a misplaced statement, two cooperating sites that each look fine alone) to knut's non-test source that BREAKS this property, while the project still compiles and the existing test suite still passes completely. Do not edit tests, golden files, or the files named verif_on.go / verif_off.go. The change must need something specific to manifest — a particular input shape, flag combination, multi-step sequence, interleaving, or fault at a particular point — not something that any ordinary use would expose at once. {style}
 
-Then write a demonstration that FAILS with your change and PASSES on the unmodified code (check both: use `git stash` / `git stash pop` in your worktree): a shell script `run.sh <path-to-knut-binary>` (plus any input files) or a Go test, that exits non-zero exactly when the property is violated.
+Then write a demonstration that FAILS with your change and PASSES on the unmodified code (check both. Do NOT use `git stash` — the stash is shared between worktrees and other agents work next to you; instead save `git diff > /tmp/mut-out/<id>/patch.diff`, revert with `git apply -R`, and re-apply with `git apply`): a shell script `run.sh <path-to-knut-binary>` (plus any input files) or a Go test, that exits non-zero exactly when the property is violated.
 
 Deliver into /tmp/mut-out/{mid}/ : `patch.diff` (output of `git diff` in the worktree — leave the change uncommitted), `demo/` (run.sh or the Go test + inputs), and `NOTES.md` (5-10 lines: what you changed, which clause of the property it breaks, what is needed for it to manifest, exactly what you ran and observed with and without the change, confirmation that `go test ./...` passes with the change). Keep your final answer to a 5-line summary.""")
 PY
